@@ -175,9 +175,8 @@ func C03(c *run.Check) {
 		}
 		jb = f
 	}
-	r.runGrid(len(ja), func(i int) *adoc.Doc { return adoc.Instantiate(ja[i].f, ja[i].deco) }, fromAll, nil)
 	rootOnly := func(n *adoc.Node) bool { return n.Kind == adoc.Root }
-	r.runGrid(len(jb), func(i int) *adoc.Doc { return adoc.Instantiate(jb[i].f, jb[i].deco) }, fromRoot, rootOnly)
+	// the small families first: when the time cap cuts the run short it cuts the large grids
 	// namespace declarations reported twice in a row (as the XML adaptor reports a
 	// default-namespace declaration): the second report replaces the first node
 	// in place, and every node keeps a position of its own
@@ -217,6 +216,8 @@ func C03(c *run.Check) {
 		r.runGrid(len(keep), func(i int) *adoc.Doc { return adoc.Instantiate(keep[i], adoc.D0) }, deepPaths, nil)
 		c.Set("deep_element_forests_all_contexts", len(keep))
 	}
+	r.runGrid(len(ja), func(i int) *adoc.Doc { return adoc.Instantiate(ja[i].f, ja[i].deco) }, fromAll, nil)
+	r.runGrid(len(jb), func(i int) *adoc.Doc { return adoc.Instantiate(jb[i].f, jb[i].deco) }, fromRoot, rootOnly)
 	for i := 7; i < len(jb); i += len(jb)/6 + 1 {
 		c.Sample(map[string]string{"doc": adoc.Instantiate(jb[i].f, jb[i].deco).String(), "expr": fromRootT[(i*131)%len(fromRootT)]})
 	}
